@@ -1,7 +1,23 @@
 use core::num::ParseIntError;
 
+// Makes sure that `hex` only consists of ASCII hexadecimal digits. Otherwise it
+// fails with the same "invalid digit" error as parsing `"gg"` would.
+//
+// `from_str_radix` alone is too permissive for hex codes, since it accepts a
+// leading `+`, and slicing a `str` by byte offsets panics if an offset is
+// inside a multi-byte character.
+#[inline]
+fn check_hex_digits(hex: &str) -> Result<(), ParseIntError> {
+    if hex.bytes().all(|byte| byte.is_ascii_hexdigit()) {
+        Ok(())
+    } else {
+        u8::from_str_radix("?", 16).map(|_| ())
+    }
+}
+
 #[inline]
 pub(crate) fn rgb_from_hex_4bit(hex: &str) -> Result<(u8, u8, u8), ParseIntError> {
+    check_hex_digits(hex)?;
     let red = u8::from_str_radix(&hex[..1], 16)?;
     let green = u8::from_str_radix(&hex[1..2], 16)?;
     let blue = u8::from_str_radix(&hex[2..3], 16)?;
@@ -19,6 +35,7 @@ pub(crate) fn rgba_from_hex_4bit(hex: &str) -> Result<(u8, u8, u8, u8), ParseInt
 
 #[inline]
 pub(crate) fn rgb_from_hex_8bit(hex: &str) -> Result<(u8, u8, u8), ParseIntError> {
+    check_hex_digits(hex)?;
     let red = u8::from_str_radix(&hex[..2], 16)?;
     let green = u8::from_str_radix(&hex[2..4], 16)?;
     let blue = u8::from_str_radix(&hex[4..6], 16)?;
@@ -36,6 +53,7 @@ pub(crate) fn rgba_from_hex_8bit(hex: &str) -> Result<(u8, u8, u8, u8), ParseInt
 
 #[inline]
 pub(crate) fn rgb_from_hex_16bit(hex: &str) -> Result<(u16, u16, u16), ParseIntError> {
+    check_hex_digits(hex)?;
     let red = u16::from_str_radix(&hex[..4], 16)?;
     let green = u16::from_str_radix(&hex[4..8], 16)?;
     let blue = u16::from_str_radix(&hex[8..12], 16)?;
@@ -53,6 +71,7 @@ pub(crate) fn rgba_from_hex_16bit(hex: &str) -> Result<(u16, u16, u16, u16), Par
 
 #[inline]
 pub(crate) fn rgb_from_hex_32bit(hex: &str) -> Result<(u32, u32, u32), ParseIntError> {
+    check_hex_digits(hex)?;
     let red = u32::from_str_radix(&hex[..8], 16)?;
     let green = u32::from_str_radix(&hex[8..16], 16)?;
     let blue = u32::from_str_radix(&hex[16..24], 16)?;
